@@ -55,12 +55,24 @@ def gen_cases(ck, limit, step):
         add([["enq", {"kind": "call", "size": sz, "seed": sz, "plain": True}], [kind2, second], ["flush"]],
             [], "offset_sweep")
     # (b2) the same after the buffer was grown by an earlier large message (free space up to 700)
-    for sz in range(0, 3 * step - 60):
+    for sz in range(0, 3 * step - 60, 1 if not quick else 2):
         second = msg(rng)
         kind2 = "enq" if second["kind"] in ("call", "ping", "badcall") and rng.random() < 0.5 else "send"
         add([["send", {"kind": "reply", "size": 2 * step + 100, "seed": 1, "plain": True}],
              ["enq", {"kind": "call", "size": sz, "seed": sz, "plain": True}], [kind2, second], ["flush"]],
             [], "offset_sweep_grown")
+    # (b3) histories that reach the size limit: the document fits exactly / by one / not at all
+    base = 60
+    for d in (range(-70, 12) if not quick else range(-12, 6)):
+        for kind in ("call", "reply"):
+            add([["send" if kind == "reply" else "enq", {"kind": kind, "size": limit - base + d, "seed": 3, "plain": True}],
+                 ["enq", {"kind": "ping"}], ["flush"], ["send", {"kind": "busy"}]], [], "near_limit")
+    for i in range(8 if quick else 300):
+        first = rng.randrange(0, limit - 100)
+        second = rng.randrange(max(0, limit - first - 200), limit - first + 60)
+        add([["enq", {"kind": "call", "size": first, "seed": 1, "plain": True}],
+             ["enq", {"kind": "call", "size": max(0, second), "seed": 2, "plain": True}],
+             ["enq", {"kind": "ping"}], ["flush"], ["send", {"kind": "ping"}]], [], "refused_after_enqueued")
     # (c) failing transport writes (outside C02_framing's hypothesis: model correspondence only)
     for i in range(60 if quick else 1000):
         n = rng.randrange(2, 8)
@@ -70,7 +82,7 @@ def gen_cases(ck, limit, step):
 
 
 def describe(c):
-    return [[o[0]] + ([o[1]["kind"], o[1]["size"]] if len(o) > 1 else []) for o in c["ops"]]
+    return [[o[0]] + ([o[1]["kind"], o[1].get("size")] if len(o) > 1 else []) for o in c["ops"]]
 
 
 def main():
@@ -85,7 +97,7 @@ def main():
             c["id"] = i
     else:
         cases = gen_cases(ck, limit, step)
-    items, results = run_wcases(ck, cases, step, limit, describe)
+    items, results = run_wcases(ck, cases, step, limit, describe, per_shard=25)
     # coverage: free space at message start, growth steps spanned, refusals
     free = set()
     spans = {}
